@@ -29,7 +29,7 @@ def bounds(tier):
 
 
 def shards(tier):
-    return [("pat", a, b) for a in range(len(KEYS)) for b in range(len(KEYS))] + [("short", 0), ("ctor", 0), ("leak", 0), ("unicode", 0)] + [("spellings", r) for r in range(16)]
+    return [("pat", a, b) for a in range(len(KEYS)) for b in range(len(KEYS))] + [("short", 0), ("ctor", 0), ("leak", 0), ("unicode", 0)] + [("spellings", r) for r in range(16)] + [("longorders", 0)]
 
 
 def others():
@@ -235,6 +235,40 @@ def check_chains(keys, acc):
                 )
 
 
+def check_long_orders(acc, tier):
+    """Custom orders of middling length (5 .. 12 keys, thorough .. 20) with entries that hold listed keys from both ends
+    of the order and two or three different unlisted keys in every arrangement of up to 4 (5) fields; one instance per
+    order over all entries (listed first in listed order, unlisted after them in source order, also on the 100th call)."""
+    top = 12 if tier == "quick" else 20
+    for n in range(5, top + 1):
+        order = tuple(f"k{i:02d}" for i in range(n))
+        pool = [order[0], order[-1], order[n // 2], "x", "y", "z"]
+        rank = lambda k, o=order: o.index(k) if k in o else len(o)
+        for ip in (True, False):
+            inst = SortFieldsCustomMiddleware(order=order, allow_inplace_modification=ip)
+            for m in range(1, (4 if tier == "quick" else 5) + 1):
+                for keys in itertools.product(pool, repeat=m):
+                    lib = mk(keys)
+                    src = pairs(lib.blocks[0])
+                    case = {"long_order": n, "keys": list(keys), "inplace": ip}
+                    acc.trace()
+                    acc.case(nontrivial_key=("long", n, keys, ip))
+                    try:
+                        got = pairs(inst.transform(lib).blocks[0])
+                    except Exception as ex:
+                        acc.exception(ex, case, "custom", size=n)
+                        continue
+                    exp = [kv for _, _, kv in sorted((rank(k), i, (k, v)) for i, (k, v) in enumerate(src))]
+                    acc.step(("long", n, keys), ip, tuple(k for k, _ in got))
+                    if got != exp:
+                        acc.violation(
+                            {"oracle": "key_order" if sorted(got) == sorted(exp) else "exactly_the_entrys_fields", "middleware": "custom", "order_length": "middling"},
+                            {"case": case, "observed": got, "expected": exp, "source": src},
+                            size=n * 10 + m,
+                        )
+                        break
+
+
 def check_ctor(acc):
     for order, cs in CUSTOM:
         folded = list(order) if cs else [k.lower() for k in order]
@@ -314,6 +348,9 @@ def run_shard(shard, tier, acc):
     if shard[0] == "ctor":
         check_ctor(acc)
         return
+    if shard[0] == "longorders":
+        check_long_orders(acc, tier)
+        return
     if shard[0] == "spellings":
         check_spellings(acc, shard[1])
         return
@@ -364,7 +401,9 @@ def run_shard(shard, tier, acc):
 
 
 def replay(case, acc):
-    if "spelling" in case:
+    if "long_order" in case:
+        check_long_orders(acc, "quick" if case["long_order"] <= 12 and len(case["keys"]) <= 4 else "thorough")
+    elif "spelling" in case:
         check_spellings(acc)
     elif "keys" in case:
         check_entry(tuple(case["keys"]), "thorough", acc)
